@@ -467,6 +467,16 @@ Definition cases : list (cli_config * cli_outcome) := [
 		"two-test-suffix-packages": {"unslice/a.go": "package checker_test\n\nfunc F(IN int) int { return IN }\n", "underef/a.go": "package checker_test\n\nfunc G(IN int) int { return IN }\n"},
 		// ill-typed declaration and assignment forms (the walkers index Lhs/Rhs/Names/Values by position)
 		"assignment-mismatch": {"a.go": "package b\n\nfunc pair() (int, int) { return 1, 2 }\n\nfunc F(IN int) int {\n\ta, b, c := pair(), IN\n\tvar d, e = pair(), IN, 3\n\tvar f, g int = 1\n\tx, y := 1\n\tvar h, i = <-make(chan int), 2, 3\n\ta, b = pair(), 1, 2\n\treturn a + b + c + d + e + f + g + x + y + h + i\n}\n"},
+		// faults AT and BEFORE the package clause, next to a good file: go/parser hands over an *ast.File without
+		// positions (Package == NoPos, Name nil or "_") for them
+		"clause-misspelt":        {"good.go": "package b\n\nfunc F(IN int) int { return IN }\n", "bad.go": "packag b\n"},
+		"clause-zero-byte-file":  {"good.go": "package b\n\nfunc F(IN int) int { return IN }\n", "bad.go": ""},
+		"clause-only-comments":   {"good.go": "package b\n\nfunc F(IN int) int { return IN }\n", "bad.go": "// Copyright.\n\n/* nothing else */\n"},
+		"clause-bom-garbage":     {"good.go": "package b\n\nfunc F(IN int) int { return IN }\n", "bad.go": "\xef\xbb\xbf%%%\x00\n"},
+		"clause-conflict-marker": {"good.go": "package b\n\nfunc F(IN int) int { return IN }\n", "bad.go": "<<<<<<< HEAD\npackage b\n=======\npackage b\n>>>>>>> other\n\nfunc G(IN int) int { return IN }\n"},
+		"clause-keyword-as-name": {"good.go": "package b\n\nfunc F(IN int) int { return IN }\n", "bad.go": "package func\n\nfunc G(IN int) int { return IN }\n"},
+		"clause-missing-name":    {"good.go": "package b\n\nfunc F(IN int) int { return IN }\n", "bad.go": "package\n\nfunc G(IN int) int { return IN }\n"},
+		"clause-twice":           {"good.go": "package b\n\nfunc F(IN int) int { return IN }\n", "bad.go": "package b\npackage b\n\nfunc G(IN int) int { return IN }\n"},
 		// syntax errors INSIDE import declarations: go/parser leaves ImportSpecs with a nil or empty Path
 		"import-bare-identifier":       {"a.go": "package b\n\nimport foo\n\nfunc F(IN int) int { return IN }\n"},
 		"import-group-bare-identifier": {"a.go": "package b\n\nimport (\n\t\"fmt\"\n\tfoo\n\t\"fmt\"\n)\n\nfunc F(IN int) { fmt.Println(IN) }\n"},
@@ -498,7 +508,10 @@ Definition cases : list (cli_config * cli_outcome) := [
 		for fn, src := range files {
 			common.WriteFile(filepath.Join(dir, fn), src)
 		}
-		for _, exe := range []string{"go-critic", "go-critic-analysis"} {
+		for _, exe := range []string{"go-critic", "gocritic", "go-critic-analysis"} {
+			if exe == "gocritic" && !strings.HasPrefix(name, "clause-") {
+				continue
+			}
 			var args []string
 			pat := "./broken/" + name
 			for fn := range files {
@@ -506,7 +519,7 @@ Definition cases : list (cli_config * cli_outcome) := [
 					pat = "./broken/" + name + "/..."
 				}
 			}
-			if exe == "go-critic" {
+			if exe != "go-critic-analysis" {
 				args = []string{"check", "-enableAll", pat}
 			} else {
 				args = []string{pat}
@@ -552,6 +565,7 @@ Definition cases : list (cli_config * cli_outcome) := [
 	timed("targets", func() int { return targetStage(meta, tier, base, bin, outDir) })
 	timed("rule-file faults", func() int { return ruleFaultStage(meta, tier, base, rdir, bin) })
 	timed("profiles", func() int { return profileStage(meta, base, bin) })
+	timed("versions naming no release", func() int { return versionStage(meta, base, bin) })
 	timed("crashing checker", func() int { return crashStage(meta, tier, base, rdir, bin, outDir) })
 	timed("dispatcher", func() int {
 		return dispatchStage(meta, tier, base, bin, outDir, common.NewRand(1, "c19-dispatch"))
